@@ -255,8 +255,10 @@ func init() {
 			// two fresh ids at once: an accept nobody dials (it must time out, with nothing delivered to it) ...
 			if ops.kind == "mux" {
 				issue("fresh:Ap91", "Ap91", false)
-				// ... and a dial nobody accepts (it stays pending while the matched pair below is established)
-				issue("fresh:Dh92", "Dh92", false)
+				// ... and, after a mass history, a dial nobody accepts (it stays pending while the matched pair below is established)
+				if strings.Contains(p["hist"], "*") {
+					issue("fresh:Dh92", "Dh92", false)
+				}
 			}
 			// ... and the matched pair
 			issue("fresh:Ap90", "Ap90", true)
